@@ -15,14 +15,14 @@ import SqiProofs.GfFp2Batch
 import SqiProofs.Primes
 import SqiProofs.GfX86Refines
 import SqiProofs.GfX86Inv
+import SqiProofs.GfX86Coeffs
 import SqiGen.GfGcd
-import SqiProofs.FiatCheap
-import SqiProofs.FiatMul1
-import SqiProofs.FiatSqr1
-import SqiProofs.FiatMul3
-import SqiProofs.FiatSqr3
-import SqiProofs.FiatMul5
-import SqiProofs.FiatSqr5
+import SqiProofs.FiatLayer1
+import SqiProofs.FiatLayer3
+import SqiProofs.FiatLayer5
+import SqiProofs.FiatBytes1
+import SqiProofs.FiatBytes3
+import SqiProofs.FiatBytes5
 
 namespace SqiProps.C07
 open SqiModel.Gf SqiProofs.GfRef SqiProofs.GfMont SqiProofs.GfFp2
@@ -297,79 +297,207 @@ example : dom2 (fun a => a < lvl1.p) (⟨3, 4⟩ : Fp2 Nat) ∧
 
 `SqiGen.Fiat{1,3,5}` are the fiat functions of fp_p5248.c / fp_p65376.c / fp_p27500.c as instruction lists, re-extracted on
 every run by tools/translate/fiat.py (mul, square, add, sub, opp, to/from_montgomery, nonzero, selectznz, to/from_bytes,
-set_one; the translator also checks that fp_add/sub/mul/sqr/tomont/frommont/mont_setone call exactly these). `SqiModel.Fiat.run`
-is the interpreter.  Proved for ALL inputs by symbolic execution (`SqiProofs.FiatExec`) + `omega`: the `mul` and `square` programs at ALL THREE
-levels are `montMul n p 1` (one `montStep` invariant per round, `SqiProofs.FiatMul{1,3,5}/FiatSqr{1,3,5}`), the level-1 `add` program is
-`Ref.fp_add lvl1`; `selectznz` and `set_one` at the three levels.  NOT proved (tied three ways on every run instead — real fiat
-function / interpreter on the extracted program / generic `montMul` model, tools/props/c07.py "fiat-programs"): to/from_montgomery at all levels, add at levels 3/5, sub, opp, nonzero, to/from_bytes (brute `omega` over the symbolic trace does
-not scale beyond ~17 instructions; a per-round invariant proof is the missing piece). -/
+set_one; the translator also checks that fp_add/sub/mul/sqr/tomont/frommont/mont_setone are wrappers that call exactly
+these). `SqiModel.Fiat.run` is the interpreter, `runLimbs prog n [a, b]` runs a program on the 64-bit digits of the integers
+`a, b` and recomposes the output limbs.  Proved for ALL inputs `< R = 2^(64 n)` (not only reduced ones) by symbolic execution
+(`SqiProofs.FiatExec`) + per-round invariants discharged by `omega` on minimal contexts:
+`mul`, `square` = `montMul n p 1` (`SqiProofs.FiatMul*/FiatSqr*`), `add`, `sub`, `opp` = the value-level `Ref.fp_add/fp_sub`
+(`SqiProofs.FiatLin*`), `set_one`, `selectznz`, `nonzero` (`SqiProofs.FiatLayer*`) — at ALL THREE levels.
+`to_montgomery` = `montMul n p 1 · (R² mod p)`, `from_montgomery` = `montMul n p 1 · 1` (`SqiProofs.FiatToM*/FiatFromM*`, same round
+invariant with the top accumulator limb a lazy sum), `to_bytes` / `from_bytes` = little-endian bytes of the limbs (`SqiProofs.FiatBytes*`; not
+called by the library; at level 5 `to_bytes` writes the last byte through a 1-bit cast, exact for inputs < 2^505).  So all twelve extracted
+functions of each fp_p*.c are proved, none is left to the three-way differential tie (which still runs, tools/props/c07.py "fiat-programs"). -/
 
-theorem fiat_add_lvl1 (a0 a1 a2 a3 b0 b1 b2 b3 : Nat) (ha0 : a0 < 2^64) (ha1 : a1 < 2^64) (ha2 : a2 < 2^64) (ha3 : a3 < 2^64)
-    (hb0 : b0 < 2^64) (hb1 : b1 < 2^64) (hb2 : b2 < 2^64) (hb3 : b3 < 2^64) :
-    SqiModel.Fiat.evalBase SqiModel.Fiat.W (SqiModel.Fiat.run SqiGen.Fiat1.add [[a0,a1,a2,a3],[b0,b1,b2,b3]]) =
-      Ref.fp_add lvl1 (a0 + 2^64*a1 + 2^128*a2 + 2^192*a3) (b0 + 2^64*b1 + 2^128*b2 + 2^192*b3) :=
-  SqiProofs.FiatCheap.add_correct_1 a0 a1 a2 a3 b0 b1 b2 b3 ha0 ha1 ha2 ha3 hb0 hb1 hb2 hb3
+open SqiModel.Fiat in
+/-- **the extracted fiat programs of level 1 are the value-level model** (`Ref.fp_*`, which `montMul_spec`, `fp_add_spec`, …
+    relate to `ZMod p`): for all `a, b < R` -/
+theorem fiat_layer_refines_model_lvl1 :
+    (∀ a b, a < lvl1.R → b < lvl1.R →
+      runLimbs SqiGen.Fiat1.mul 4 [a, b] = Ref.fp_mul lvl1 a b ∧
+      runLimbs SqiGen.Fiat1.add 4 [a, b] = Ref.fp_add lvl1 a b ∧
+      runLimbs SqiGen.Fiat1.sub 4 [a, b] = Ref.fp_sub lvl1 a b) ∧
+    (∀ a, a < lvl1.R →
+      runLimbs SqiGen.Fiat1.square 4 [a] = Ref.fp_sqr lvl1 a ∧
+      runLimbs SqiGen.Fiat1.opp 4 [a] = Ref.fp_sub lvl1 0 a ∧
+      runLimbs SqiGen.Fiat1.to_montgomery 4 [a] = Ref.fp_tomont lvl1 a ∧
+      runLimbs SqiGen.Fiat1.from_montgomery 4 [a] = Ref.fp_frommont lvl1 a) ∧
+    runLimbs SqiGen.Fiat1.set_one 4 [] = Ref.fp_set_one lvl1 ∧
+    (∀ c a0 a1 a2 a3 b0 b1 b2 b3 : Nat, a0 < 2^64 → a1 < 2^64 → a2 < 2^64 → a3 < 2^64 →
+      b0 < 2^64 → b1 < 2^64 → b2 < 2^64 → b3 < 2^64 →
+      run SqiGen.Fiat1.selectznz [[c], [a0,a1,a2,a3], [b0,b1,b2,b3]] =
+        if c % 2 ^ 64 = 0 then [a0,a1,a2,a3] else [b0,b1,b2,b3]) ∧
+    (∀ a0 a1 a2 a3 : Nat, a0 < 2^64 → a1 < 2^64 → a2 < 2^64 → a3 < 2^64 →
+      run SqiGen.Fiat1.nonzero [[a0,a1,a2,a3]] = [a0 ||| (a1 ||| (a2 ||| a3))] ∧
+      ((a0 ||| (a1 ||| (a2 ||| a3))) = 0 ↔ (a0 = 0 ∧ a1 = 0 ∧ a2 = 0 ∧ a3 = 0))) ∧
+    (∀ a0 a1 a2 a3 : Nat, a0 < 2^64 → a1 < 2^64 → a2 < 2^64 → a3 < 2^64 →
+      run SqiGen.Fiat1.to_bytes [[a0, a1, a2, a3]] = digits 256 8 a0 ++ digits 256 8 a1 ++ digits 256 8 a2 ++ digits 256 8 a3) ∧
+    (∀ b0 b1 b2 b3 b4 b5 b6 b7 b8 b9 b10 b11 b12 b13 b14 b15 b16 b17 b18 b19 b20 b21 b22 b23 b24 b25 b26 b27 b28 b29 b30 b31 : Nat,
+      b0 < 256 → b1 < 256 → b2 < 256 → b3 < 256 → b4 < 256 → b5 < 256 → b6 < 256 → b7 < 256 → b8 < 256 → b9 < 256 → b10 < 256 → b11 < 256 → b12 < 256 → b13 < 256 → b14 < 256 → b15 < 256 → b16 < 256 → b17 < 256 → b18 < 256 → b19 < 256 → b20 < 256 → b21 < 256 → b22 < 256 → b23 < 256 → b24 < 256 → b25 < 256 → b26 < 256 → b27 < 256 → b28 < 256 → b29 < 256 → b30 < 256 → b31 < 256 →
+      run SqiGen.Fiat1.from_bytes [[b0, b1, b2, b3, b4, b5, b6, b7, b8, b9, b10, b11, b12, b13, b14, b15, b16, b17, b18, b19, b20, b21, b22, b23, b24, b25, b26, b27, b28, b29, b30, b31]] =
+        [b0 + 256 * b1 + 65536 * b2 + 16777216 * b3 + 4294967296 * b4 + 1099511627776 * b5 + 281474976710656 * b6 + 72057594037927936 * b7,
+         b8 + 256 * b9 + 65536 * b10 + 16777216 * b11 + 4294967296 * b12 + 1099511627776 * b13 + 281474976710656 * b14 + 72057594037927936 * b15,
+         b16 + 256 * b17 + 65536 * b18 + 16777216 * b19 + 4294967296 * b20 + 1099511627776 * b21 + 281474976710656 * b22 + 72057594037927936 * b23,
+         b24 + 256 * b25 + 65536 * b26 + 16777216 * b27 + 4294967296 * b28 + 1099511627776 * b29 + 281474976710656 * b30 + 72057594037927936 * b31]) :=
+  ⟨fun a b ha hb => ⟨SqiProofs.FiatLayer1.mul_val a b ha hb, SqiProofs.FiatLayer1.add_val a b ha hb,
+      SqiProofs.FiatLayer1.sub_val a b ha hb⟩,
+   fun a ha => ⟨SqiProofs.FiatLayer1.square_val a ha, SqiProofs.FiatLayer1.opp_val a ha,
+      SqiProofs.FiatLayer1.to_montgomery_val a ha, SqiProofs.FiatLayer1.from_montgomery_val a ha⟩,
+   SqiProofs.FiatLayer1.set_one_val,
+   fun c a0 a1 a2 a3 b0 b1 b2 b3 ha0 ha1 ha2 ha3 hb0 hb1 hb2 hb3 =>
+     SqiProofs.FiatLayer1.selectznz_correct c a0 a1 a2 a3 b0 b1 b2 b3 ha0 ha1 ha2 ha3 hb0 hb1 hb2 hb3,
+   fun a0 a1 a2 a3 ha0 ha1 ha2 ha3 => SqiProofs.FiatLayer1.nonzero_correct a0 a1 a2 a3 ha0 ha1 ha2 ha3,
+   fun a0 a1 a2 a3 ha0 ha1 ha2 ha3 => SqiProofs.FiatBytes1.to_bytes_correct a0 a1 a2 a3 ha0 ha1 ha2 ha3,
+   fun b0 b1 b2 b3 b4 b5 b6 b7 b8 b9 b10 b11 b12 b13 b14 b15 b16 b17 b18 b19 b20 b21 b22 b23 b24 b25 b26 b27 b28 b29 b30 b31 hb0 hb1 hb2 hb3 hb4 hb5 hb6 hb7 hb8 hb9 hb10 hb11 hb12 hb13 hb14 hb15 hb16 hb17 hb18 hb19 hb20 hb21 hb22 hb23 hb24 hb25 hb26 hb27 hb28 hb29 hb30 hb31 => SqiProofs.FiatBytes1.from_bytes_correct b0 b1 b2 b3 b4 b5 b6 b7 b8 b9 b10 b11 b12 b13 b14 b15 b16 b17 b18 b19 b20 b21 b22 b23 b24 b25 b26 b27 b28 b29 b30 b31 hb0 hb1 hb2 hb3 hb4 hb5 hb6 hb7 hb8 hb9 hb10 hb11 hb12 hb13 hb14 hb15 hb16 hb17 hb18 hb19 hb20 hb21 hb22 hb23 hb24 hb25 hb26 hb27 hb28 hb29 hb30 hb31⟩
 
-/-- **`fiat_p5248_mul` = generic word-by-word Montgomery multiplication**, for ALL 4-limb operands (not only reduced ones):
-    the program re-extracted from fp_p5248.c, run by the interpreter, returns `Ref.fp_mul lvl1 A B = montMul 4 p 1 A B`.
-    With `montMul_spec` this is the first end-to-end theorem from the fiat C text to `a·b·R⁻¹ mod p`. -/
-theorem fiat_mul_lvl1 (a0 a1 a2 a3 b0 b1 b2 b3 : Nat) (ha0 : a0 < 2^64) (ha1 : a1 < 2^64) (ha2 : a2 < 2^64) (ha3 : a3 < 2^64)
-    (hb0 : b0 < 2^64) (hb1 : b1 < 2^64) (hb2 : b2 < 2^64) (hb3 : b3 < 2^64) :
-    SqiModel.Fiat.evalBase SqiModel.Fiat.W (SqiModel.Fiat.run SqiGen.Fiat1.mul [[a0,a1,a2,a3],[b0,b1,b2,b3]]) =
-      Ref.fp_mul lvl1 (a0 + 2^64*a1 + 2^128*a2 + 2^192*a3) (b0 + 2^64*b1 + 2^128*b2 + 2^192*b3) := by
-  have h := SqiProofs.FiatMul1.mul_correct a0 a1 a2 a3 b0 b1 b2 b3 ha0 ha1 ha2 ha3 hb0 hb1 hb2 hb3
-  simpa [Ref.fp_mul, lvl1, Nat.mul_comm] using h
+open SqiModel.Fiat in
+/-- level 3 (6 limbs), same statement -/
+theorem fiat_layer_refines_model_lvl3 :
+    (∀ a b, a < lvl3.R → b < lvl3.R →
+      runLimbs SqiGen.Fiat3.mul 6 [a, b] = Ref.fp_mul lvl3 a b ∧
+      runLimbs SqiGen.Fiat3.add 6 [a, b] = Ref.fp_add lvl3 a b ∧
+      runLimbs SqiGen.Fiat3.sub 6 [a, b] = Ref.fp_sub lvl3 a b) ∧
+    (∀ a, a < lvl3.R →
+      runLimbs SqiGen.Fiat3.square 6 [a] = Ref.fp_sqr lvl3 a ∧
+      runLimbs SqiGen.Fiat3.opp 6 [a] = Ref.fp_sub lvl3 0 a ∧
+      runLimbs SqiGen.Fiat3.to_montgomery 6 [a] = Ref.fp_tomont lvl3 a ∧
+      runLimbs SqiGen.Fiat3.from_montgomery 6 [a] = Ref.fp_frommont lvl3 a) ∧
+    runLimbs SqiGen.Fiat3.set_one 6 [] = Ref.fp_set_one lvl3 ∧
+    (∀ c a0 a1 a2 a3 a4 a5 b0 b1 b2 b3 b4 b5 : Nat, a0 < 2^64 → a1 < 2^64 → a2 < 2^64 → a3 < 2^64 → a4 < 2^64 → a5 < 2^64 →
+      b0 < 2^64 → b1 < 2^64 → b2 < 2^64 → b3 < 2^64 → b4 < 2^64 → b5 < 2^64 →
+      run SqiGen.Fiat3.selectznz [[c], [a0, a1, a2, a3, a4, a5], [b0, b1, b2, b3, b4, b5]] =
+        if c % 2 ^ 64 = 0 then [a0, a1, a2, a3, a4, a5] else [b0, b1, b2, b3, b4, b5]) ∧
+    (∀ a0 a1 a2 a3 a4 a5 : Nat, a0 < 2^64 → a1 < 2^64 → a2 < 2^64 → a3 < 2^64 → a4 < 2^64 → a5 < 2^64 →
+      run SqiGen.Fiat3.nonzero [[a0, a1, a2, a3, a4, a5]] = [a0 ||| (a1 ||| (a2 ||| (a3 ||| (a4 ||| (a5)))))] ∧
+      ((a0 ||| (a1 ||| (a2 ||| (a3 ||| (a4 ||| (a5)))))) = 0 ↔ (a0 = 0 ∧ a1 = 0 ∧ a2 = 0 ∧ a3 = 0 ∧ a4 = 0 ∧ a5 = 0))) ∧
+    (∀ a0 a1 a2 a3 a4 a5 : Nat, a0 < 2^64 → a1 < 2^64 → a2 < 2^64 → a3 < 2^64 → a4 < 2^64 → a5 < 2^64 →
+      run SqiGen.Fiat3.to_bytes [[a0, a1, a2, a3, a4, a5]] = digits 256 8 a0 ++ digits 256 8 a1 ++ digits 256 8 a2 ++ digits 256 8 a3 ++ digits 256 8 a4 ++ digits 256 8 a5) ∧
+    (∀ b0 b1 b2 b3 b4 b5 b6 b7 b8 b9 b10 b11 b12 b13 b14 b15 b16 b17 b18 b19 b20 b21 b22 b23 b24 b25 b26 b27 b28 b29 b30 b31 b32 b33 b34 b35 b36 b37 b38 b39 b40 b41 b42 b43 b44 b45 b46 b47 : Nat,
+      b0 < 256 → b1 < 256 → b2 < 256 → b3 < 256 → b4 < 256 → b5 < 256 → b6 < 256 → b7 < 256 → b8 < 256 → b9 < 256 → b10 < 256 → b11 < 256 → b12 < 256 → b13 < 256 → b14 < 256 → b15 < 256 → b16 < 256 → b17 < 256 → b18 < 256 → b19 < 256 → b20 < 256 → b21 < 256 → b22 < 256 → b23 < 256 → b24 < 256 → b25 < 256 → b26 < 256 → b27 < 256 → b28 < 256 → b29 < 256 → b30 < 256 → b31 < 256 → b32 < 256 → b33 < 256 → b34 < 256 → b35 < 256 → b36 < 256 → b37 < 256 → b38 < 256 → b39 < 256 → b40 < 256 → b41 < 256 → b42 < 256 → b43 < 256 → b44 < 256 → b45 < 256 → b46 < 256 → b47 < 256 →
+      run SqiGen.Fiat3.from_bytes [[b0, b1, b2, b3, b4, b5, b6, b7, b8, b9, b10, b11, b12, b13, b14, b15, b16, b17, b18, b19, b20, b21, b22, b23, b24, b25, b26, b27, b28, b29, b30, b31, b32, b33, b34, b35, b36, b37, b38, b39, b40, b41, b42, b43, b44, b45, b46, b47]] =
+        [b0 + 256 * b1 + 65536 * b2 + 16777216 * b3 + 4294967296 * b4 + 1099511627776 * b5 + 281474976710656 * b6 + 72057594037927936 * b7,
+         b8 + 256 * b9 + 65536 * b10 + 16777216 * b11 + 4294967296 * b12 + 1099511627776 * b13 + 281474976710656 * b14 + 72057594037927936 * b15,
+         b16 + 256 * b17 + 65536 * b18 + 16777216 * b19 + 4294967296 * b20 + 1099511627776 * b21 + 281474976710656 * b22 + 72057594037927936 * b23,
+         b24 + 256 * b25 + 65536 * b26 + 16777216 * b27 + 4294967296 * b28 + 1099511627776 * b29 + 281474976710656 * b30 + 72057594037927936 * b31,
+         b32 + 256 * b33 + 65536 * b34 + 16777216 * b35 + 4294967296 * b36 + 1099511627776 * b37 + 281474976710656 * b38 + 72057594037927936 * b39,
+         b40 + 256 * b41 + 65536 * b42 + 16777216 * b43 + 4294967296 * b44 + 1099511627776 * b45 + 281474976710656 * b46 + 72057594037927936 * b47]) :=
+  ⟨fun a b ha hb => ⟨SqiProofs.FiatLayer3.mul_val a b ha hb, SqiProofs.FiatLayer3.add_val a b ha hb,
+      SqiProofs.FiatLayer3.sub_val a b ha hb⟩,
+   fun a ha => ⟨SqiProofs.FiatLayer3.square_val a ha, SqiProofs.FiatLayer3.opp_val a ha,
+      SqiProofs.FiatLayer3.to_montgomery_val a ha, SqiProofs.FiatLayer3.from_montgomery_val a ha⟩,
+   SqiProofs.FiatLayer3.set_one_val,
+   fun c a0 a1 a2 a3 a4 a5 b0 b1 b2 b3 b4 b5 ha0 ha1 ha2 ha3 ha4 ha5 hb0 hb1 hb2 hb3 hb4 hb5 =>
+     SqiProofs.FiatLayer3.selectznz_correct c a0 a1 a2 a3 a4 a5 b0 b1 b2 b3 b4 b5 ha0 ha1 ha2 ha3 ha4 ha5 hb0 hb1 hb2 hb3 hb4 hb5,
+   fun a0 a1 a2 a3 a4 a5 ha0 ha1 ha2 ha3 ha4 ha5 => SqiProofs.FiatLayer3.nonzero_correct a0 a1 a2 a3 a4 a5 ha0 ha1 ha2 ha3 ha4 ha5,
+   fun a0 a1 a2 a3 a4 a5 ha0 ha1 ha2 ha3 ha4 ha5 => SqiProofs.FiatBytes3.to_bytes_correct a0 a1 a2 a3 a4 a5 ha0 ha1 ha2 ha3 ha4 ha5,
+   fun b0 b1 b2 b3 b4 b5 b6 b7 b8 b9 b10 b11 b12 b13 b14 b15 b16 b17 b18 b19 b20 b21 b22 b23 b24 b25 b26 b27 b28 b29 b30 b31 b32 b33 b34 b35 b36 b37 b38 b39 b40 b41 b42 b43 b44 b45 b46 b47 hb0 hb1 hb2 hb3 hb4 hb5 hb6 hb7 hb8 hb9 hb10 hb11 hb12 hb13 hb14 hb15 hb16 hb17 hb18 hb19 hb20 hb21 hb22 hb23 hb24 hb25 hb26 hb27 hb28 hb29 hb30 hb31 hb32 hb33 hb34 hb35 hb36 hb37 hb38 hb39 hb40 hb41 hb42 hb43 hb44 hb45 hb46 hb47 => SqiProofs.FiatBytes3.from_bytes_correct b0 b1 b2 b3 b4 b5 b6 b7 b8 b9 b10 b11 b12 b13 b14 b15 b16 b17 b18 b19 b20 b21 b22 b23 b24 b25 b26 b27 b28 b29 b30 b31 b32 b33 b34 b35 b36 b37 b38 b39 b40 b41 b42 b43 b44 b45 b46 b47 hb0 hb1 hb2 hb3 hb4 hb5 hb6 hb7 hb8 hb9 hb10 hb11 hb12 hb13 hb14 hb15 hb16 hb17 hb18 hb19 hb20 hb21 hb22 hb23 hb24 hb25 hb26 hb27 hb28 hb29 hb30 hb31 hb32 hb33 hb34 hb35 hb36 hb37 hb38 hb39 hb40 hb41 hb42 hb43 hb44 hb45 hb46 hb47⟩
 
-/-- `fiat_p5248_square` likewise: `Ref.fp_sqr lvl1 A = montMul 4 p 1 A A` -/
-theorem fiat_square_lvl1 (a0 a1 a2 a3 : Nat) (ha0 : a0 < 2^64) (ha1 : a1 < 2^64) (ha2 : a2 < 2^64) (ha3 : a3 < 2^64) :
-    SqiModel.Fiat.evalBase SqiModel.Fiat.W (SqiModel.Fiat.run SqiGen.Fiat1.square [[a0,a1,a2,a3]]) =
-      Ref.fp_sqr lvl1 (a0 + 2^64*a1 + 2^128*a2 + 2^192*a3) := by
-  have h := SqiProofs.FiatSqr1.square_correct a0 a1 a2 a3 ha0 ha1 ha2 ha3
-  simpa [Ref.fp_sqr, lvl1, Nat.mul_comm] using h
+open SqiModel.Fiat in
+/-- level 5 (8 limbs), same statement -/
+theorem fiat_layer_refines_model_lvl5 :
+    (∀ a b, a < lvl5.R → b < lvl5.R →
+      runLimbs SqiGen.Fiat5.mul 8 [a, b] = Ref.fp_mul lvl5 a b ∧
+      runLimbs SqiGen.Fiat5.add 8 [a, b] = Ref.fp_add lvl5 a b ∧
+      runLimbs SqiGen.Fiat5.sub 8 [a, b] = Ref.fp_sub lvl5 a b) ∧
+    (∀ a, a < lvl5.R →
+      runLimbs SqiGen.Fiat5.square 8 [a] = Ref.fp_sqr lvl5 a ∧
+      runLimbs SqiGen.Fiat5.opp 8 [a] = Ref.fp_sub lvl5 0 a ∧
+      runLimbs SqiGen.Fiat5.to_montgomery 8 [a] = Ref.fp_tomont lvl5 a ∧
+      runLimbs SqiGen.Fiat5.from_montgomery 8 [a] = Ref.fp_frommont lvl5 a) ∧
+    runLimbs SqiGen.Fiat5.set_one 8 [] = Ref.fp_set_one lvl5 ∧
+    (∀ c a0 a1 a2 a3 a4 a5 a6 a7 b0 b1 b2 b3 b4 b5 b6 b7 : Nat, a0 < 2^64 → a1 < 2^64 → a2 < 2^64 → a3 < 2^64 → a4 < 2^64 → a5 < 2^64 → a6 < 2^64 → a7 < 2^64 →
+      b0 < 2^64 → b1 < 2^64 → b2 < 2^64 → b3 < 2^64 → b4 < 2^64 → b5 < 2^64 → b6 < 2^64 → b7 < 2^64 →
+      run SqiGen.Fiat5.selectznz [[c], [a0, a1, a2, a3, a4, a5, a6, a7], [b0, b1, b2, b3, b4, b5, b6, b7]] =
+        if c % 2 ^ 64 = 0 then [a0, a1, a2, a3, a4, a5, a6, a7] else [b0, b1, b2, b3, b4, b5, b6, b7]) ∧
+    (∀ a0 a1 a2 a3 a4 a5 a6 a7 : Nat, a0 < 2^64 → a1 < 2^64 → a2 < 2^64 → a3 < 2^64 → a4 < 2^64 → a5 < 2^64 → a6 < 2^64 → a7 < 2^64 →
+      run SqiGen.Fiat5.nonzero [[a0, a1, a2, a3, a4, a5, a6, a7]] = [a0 ||| (a1 ||| (a2 ||| (a3 ||| (a4 ||| (a5 ||| (a6 ||| (a7)))))))] ∧
+      ((a0 ||| (a1 ||| (a2 ||| (a3 ||| (a4 ||| (a5 ||| (a6 ||| (a7)))))))) = 0 ↔ (a0 = 0 ∧ a1 = 0 ∧ a2 = 0 ∧ a3 = 0 ∧ a4 = 0 ∧ a5 = 0 ∧ a6 = 0 ∧ a7 = 0))) ∧
+    (∀ a0 a1 a2 a3 a4 a5 a6 a7 : Nat, a0 < 2^64 → a1 < 2^64 → a2 < 2^64 → a3 < 2^64 → a4 < 2^64 → a5 < 2^64 → a6 < 2^64 → a7 < 2^64 → a7 < 2^57 →
+      run SqiGen.Fiat5.to_bytes [[a0, a1, a2, a3, a4, a5, a6, a7]] = digits 256 8 a0 ++ digits 256 8 a1 ++ digits 256 8 a2 ++ digits 256 8 a3 ++ digits 256 8 a4 ++ digits 256 8 a5 ++ digits 256 8 a6 ++ digits 256 8 a7) ∧
+    (∀ b0 b1 b2 b3 b4 b5 b6 b7 b8 b9 b10 b11 b12 b13 b14 b15 b16 b17 b18 b19 b20 b21 b22 b23 b24 b25 b26 b27 b28 b29 b30 b31 b32 b33 b34 b35 b36 b37 b38 b39 b40 b41 b42 b43 b44 b45 b46 b47 b48 b49 b50 b51 b52 b53 b54 b55 b56 b57 b58 b59 b60 b61 b62 b63 : Nat,
+      b0 < 256 → b1 < 256 → b2 < 256 → b3 < 256 → b4 < 256 → b5 < 256 → b6 < 256 → b7 < 256 → b8 < 256 → b9 < 256 → b10 < 256 → b11 < 256 → b12 < 256 → b13 < 256 → b14 < 256 → b15 < 256 → b16 < 256 → b17 < 256 → b18 < 256 → b19 < 256 → b20 < 256 → b21 < 256 → b22 < 256 → b23 < 256 → b24 < 256 → b25 < 256 → b26 < 256 → b27 < 256 → b28 < 256 → b29 < 256 → b30 < 256 → b31 < 256 → b32 < 256 → b33 < 256 → b34 < 256 → b35 < 256 → b36 < 256 → b37 < 256 → b38 < 256 → b39 < 256 → b40 < 256 → b41 < 256 → b42 < 256 → b43 < 256 → b44 < 256 → b45 < 256 → b46 < 256 → b47 < 256 → b48 < 256 → b49 < 256 → b50 < 256 → b51 < 256 → b52 < 256 → b53 < 256 → b54 < 256 → b55 < 256 → b56 < 256 → b57 < 256 → b58 < 256 → b59 < 256 → b60 < 256 → b61 < 256 → b62 < 256 → b63 < 256 →
+      run SqiGen.Fiat5.from_bytes [[b0, b1, b2, b3, b4, b5, b6, b7, b8, b9, b10, b11, b12, b13, b14, b15, b16, b17, b18, b19, b20, b21, b22, b23, b24, b25, b26, b27, b28, b29, b30, b31, b32, b33, b34, b35, b36, b37, b38, b39, b40, b41, b42, b43, b44, b45, b46, b47, b48, b49, b50, b51, b52, b53, b54, b55, b56, b57, b58, b59, b60, b61, b62, b63]] =
+        [b0 + 256 * b1 + 65536 * b2 + 16777216 * b3 + 4294967296 * b4 + 1099511627776 * b5 + 281474976710656 * b6 + 72057594037927936 * b7,
+         b8 + 256 * b9 + 65536 * b10 + 16777216 * b11 + 4294967296 * b12 + 1099511627776 * b13 + 281474976710656 * b14 + 72057594037927936 * b15,
+         b16 + 256 * b17 + 65536 * b18 + 16777216 * b19 + 4294967296 * b20 + 1099511627776 * b21 + 281474976710656 * b22 + 72057594037927936 * b23,
+         b24 + 256 * b25 + 65536 * b26 + 16777216 * b27 + 4294967296 * b28 + 1099511627776 * b29 + 281474976710656 * b30 + 72057594037927936 * b31,
+         b32 + 256 * b33 + 65536 * b34 + 16777216 * b35 + 4294967296 * b36 + 1099511627776 * b37 + 281474976710656 * b38 + 72057594037927936 * b39,
+         b40 + 256 * b41 + 65536 * b42 + 16777216 * b43 + 4294967296 * b44 + 1099511627776 * b45 + 281474976710656 * b46 + 72057594037927936 * b47,
+         b48 + 256 * b49 + 65536 * b50 + 16777216 * b51 + 4294967296 * b52 + 1099511627776 * b53 + 281474976710656 * b54 + 72057594037927936 * b55,
+         b56 + 256 * b57 + 65536 * b58 + 16777216 * b59 + 4294967296 * b60 + 1099511627776 * b61 + 281474976710656 * b62 + 72057594037927936 * b63]) :=
+  ⟨fun a b ha hb => ⟨SqiProofs.FiatLayer5.mul_val a b ha hb, SqiProofs.FiatLayer5.add_val a b ha hb,
+      SqiProofs.FiatLayer5.sub_val a b ha hb⟩,
+   fun a ha => ⟨SqiProofs.FiatLayer5.square_val a ha, SqiProofs.FiatLayer5.opp_val a ha,
+      SqiProofs.FiatLayer5.to_montgomery_val a ha, SqiProofs.FiatLayer5.from_montgomery_val a ha⟩,
+   SqiProofs.FiatLayer5.set_one_val,
+   fun c a0 a1 a2 a3 a4 a5 a6 a7 b0 b1 b2 b3 b4 b5 b6 b7 ha0 ha1 ha2 ha3 ha4 ha5 ha6 ha7 hb0 hb1 hb2 hb3 hb4 hb5 hb6 hb7 =>
+     SqiProofs.FiatLayer5.selectznz_correct c a0 a1 a2 a3 a4 a5 a6 a7 b0 b1 b2 b3 b4 b5 b6 b7 ha0 ha1 ha2 ha3 ha4 ha5 ha6 ha7 hb0 hb1 hb2 hb3 hb4 hb5 hb6 hb7,
+   fun a0 a1 a2 a3 a4 a5 a6 a7 ha0 ha1 ha2 ha3 ha4 ha5 ha6 ha7 => SqiProofs.FiatLayer5.nonzero_correct a0 a1 a2 a3 a4 a5 a6 a7 ha0 ha1 ha2 ha3 ha4 ha5 ha6 ha7,
+   fun a0 a1 a2 a3 a4 a5 a6 a7 ha0 ha1 ha2 ha3 ha4 ha5 ha6 ha7 hat => SqiProofs.FiatBytes5.to_bytes_correct a0 a1 a2 a3 a4 a5 a6 a7 ha0 ha1 ha2 ha3 ha4 ha5 ha6 ha7 hat,
+   fun b0 b1 b2 b3 b4 b5 b6 b7 b8 b9 b10 b11 b12 b13 b14 b15 b16 b17 b18 b19 b20 b21 b22 b23 b24 b25 b26 b27 b28 b29 b30 b31 b32 b33 b34 b35 b36 b37 b38 b39 b40 b41 b42 b43 b44 b45 b46 b47 b48 b49 b50 b51 b52 b53 b54 b55 b56 b57 b58 b59 b60 b61 b62 b63 hb0 hb1 hb2 hb3 hb4 hb5 hb6 hb7 hb8 hb9 hb10 hb11 hb12 hb13 hb14 hb15 hb16 hb17 hb18 hb19 hb20 hb21 hb22 hb23 hb24 hb25 hb26 hb27 hb28 hb29 hb30 hb31 hb32 hb33 hb34 hb35 hb36 hb37 hb38 hb39 hb40 hb41 hb42 hb43 hb44 hb45 hb46 hb47 hb48 hb49 hb50 hb51 hb52 hb53 hb54 hb55 hb56 hb57 hb58 hb59 hb60 hb61 hb62 hb63 => SqiProofs.FiatBytes5.from_bytes_correct b0 b1 b2 b3 b4 b5 b6 b7 b8 b9 b10 b11 b12 b13 b14 b15 b16 b17 b18 b19 b20 b21 b22 b23 b24 b25 b26 b27 b28 b29 b30 b31 b32 b33 b34 b35 b36 b37 b38 b39 b40 b41 b42 b43 b44 b45 b46 b47 b48 b49 b50 b51 b52 b53 b54 b55 b56 b57 b58 b59 b60 b61 b62 b63 hb0 hb1 hb2 hb3 hb4 hb5 hb6 hb7 hb8 hb9 hb10 hb11 hb12 hb13 hb14 hb15 hb16 hb17 hb18 hb19 hb20 hb21 hb22 hb23 hb24 hb25 hb26 hb27 hb28 hb29 hb30 hb31 hb32 hb33 hb34 hb35 hb36 hb37 hb38 hb39 hb40 hb41 hb42 hb43 hb44 hb45 hb46 hb47 hb48 hb49 hb50 hb51 hb52 hb53 hb54 hb55 hb56 hb57 hb58 hb59 hb60 hb61 hb62 hb63⟩
 
-/-- `fiat_*_mul` at level 3 (6 limbs) = `Ref.fp_mul lvl3` (generic Montgomery model), ALL inputs -/
-theorem fiat_mul_lvl3 (a0 a1 a2 a3 a4 a5 b0 b1 b2 b3 b4 b5 : Nat) (ha0 : a0 < 18446744073709551616) (ha1 : a1 < 18446744073709551616) (ha2 : a2 < 18446744073709551616) (ha3 : a3 < 18446744073709551616) (ha4 : a4 < 18446744073709551616) (ha5 : a5 < 18446744073709551616) (hb0 : b0 < 18446744073709551616) (hb1 : b1 < 18446744073709551616) (hb2 : b2 < 18446744073709551616) (hb3 : b3 < 18446744073709551616) (hb4 : b4 < 18446744073709551616) (hb5 : b5 < 18446744073709551616) :
-    SqiModel.Fiat.evalBase SqiModel.Fiat.W (SqiModel.Fiat.run SqiGen.Fiat3.mul [[a0, a1, a2, a3, a4, a5], [b0, b1, b2, b3, b4, b5]]) =
-      Ref.fp_mul lvl3 (a0 + 18446744073709551616 * (a1) + 340282366920938463463374607431768211456 * (a2) + 6277101735386680763835789423207666416102355444464034512896 * (a3) + 115792089237316195423570985008687907853269984665640564039457584007913129639936 * (a4) + 2135987035920910082395021706169552114602704522356652769947041607822219725780640550022962086936576 * (a5)) (b0 + 18446744073709551616 * (b1) + 340282366920938463463374607431768211456 * (b2) + 6277101735386680763835789423207666416102355444464034512896 * (b3) + 115792089237316195423570985008687907853269984665640564039457584007913129639936 * (b4) + 2135987035920910082395021706169552114602704522356652769947041607822219725780640550022962086936576 * (b5)) := by
-  have h := SqiProofs.FiatMul3.mul_correct a0 a1 a2 a3 a4 a5 b0 b1 b2 b3 b4 b5 ha0 ha1 ha2 ha3 ha4 ha5 hb0 hb1 hb2 hb3 hb4 hb5
-  have hp : lvl3.p = 10004415635803285737492725025427089442696027549141617318033746372171765293544213631804403541279373111923557888163839 := by decide +kernel
-  unfold Ref.fp_mul; rw [hp]; exact h
+/-! ### the ref back-end stated over the GENERATED programs
 
-/-- `fiat_*_square` at level 3 = `Ref.fp_sqr lvl3`, ALL inputs -/
-theorem fiat_square_lvl3 (a0 a1 a2 a3 a4 a5 : Nat) (ha0 : a0 < 18446744073709551616) (ha1 : a1 < 18446744073709551616) (ha2 : a2 < 18446744073709551616) (ha3 : a3 < 18446744073709551616) (ha4 : a4 < 18446744073709551616) (ha5 : a5 < 18446744073709551616) :
-    SqiModel.Fiat.evalBase SqiModel.Fiat.W (SqiModel.Fiat.run SqiGen.Fiat3.square [[a0, a1, a2, a3, a4, a5]]) =
-      Ref.fp_sqr lvl3 (a0 + 18446744073709551616 * (a1) + 340282366920938463463374607431768211456 * (a2) + 6277101735386680763835789423207666416102355444464034512896 * (a3) + 115792089237316195423570985008687907853269984665640564039457584007913129639936 * (a4) + 2135987035920910082395021706169552114602704522356652769947041607822219725780640550022962086936576 * (a5)) := by
-  have h := SqiProofs.FiatSqr3.square_correct a0 a1 a2 a3 a4 a5 ha0 ha1 ha2 ha3 ha4 ha5
-  have hp : lvl3.p = 10004415635803285737492725025427089442696027549141617318033746372171765293544213631804403541279373111923557888163839 := by decide +kernel
-  unfold Ref.fp_sqr; rw [hp]; exact h
+`fp_add`, `fp_sub`, `fp_mul`, `fp_sqr`, `fp_mont_setone` of fp_p*.c are one-line wrappers around the fiat functions (checked on
+the C text by tools/translate/fiat.py at every run), so the ref-back-end record whose five primitive fields ARE the extracted
+programs is `genOps`: C function = wrapper (text-checked) ∘ extracted program (translation) ∘ proved.  The remaining fields of
+the record are the gfx/fp.c functions, modelled in `SqiModel.GfRef` over the value-level primitives (tie H). -/
 
-/-- `fiat_*_mul` at level 5 (8 limbs) = `Ref.fp_mul lvl5` (generic Montgomery model), ALL inputs -/
-theorem fiat_mul_lvl5 (a0 a1 a2 a3 a4 a5 a6 a7 b0 b1 b2 b3 b4 b5 b6 b7 : Nat) (ha0 : a0 < 18446744073709551616) (ha1 : a1 < 18446744073709551616) (ha2 : a2 < 18446744073709551616) (ha3 : a3 < 18446744073709551616) (ha4 : a4 < 18446744073709551616) (ha5 : a5 < 18446744073709551616) (ha6 : a6 < 18446744073709551616) (ha7 : a7 < 18446744073709551616) (hb0 : b0 < 18446744073709551616) (hb1 : b1 < 18446744073709551616) (hb2 : b2 < 18446744073709551616) (hb3 : b3 < 18446744073709551616) (hb4 : b4 < 18446744073709551616) (hb5 : b5 < 18446744073709551616) (hb6 : b6 < 18446744073709551616) (hb7 : b7 < 18446744073709551616) :
-    SqiModel.Fiat.evalBase SqiModel.Fiat.W (SqiModel.Fiat.run SqiGen.Fiat5.mul [[a0, a1, a2, a3, a4, a5, a6, a7], [b0, b1, b2, b3, b4, b5, b6, b7]]) =
-      Ref.fp_mul lvl5 (a0 + 18446744073709551616 * (a1) + 340282366920938463463374607431768211456 * (a2) + 6277101735386680763835789423207666416102355444464034512896 * (a3) + 115792089237316195423570985008687907853269984665640564039457584007913129639936 * (a4) + 2135987035920910082395021706169552114602704522356652769947041607822219725780640550022962086936576 * (a5) + 39402006196394479212279040100143613805079739270465446667948293404245721771497210611414266254884915640806627990306816 * (a6) + 726838724295606890549323807888004534353641360687318060281490199180639288113397923326191050713763565560762521606266177933534601628614656 * (a7)) (b0 + 18446744073709551616 * (b1) + 340282366920938463463374607431768211456 * (b2) + 6277101735386680763835789423207666416102355444464034512896 * (b3) + 115792089237316195423570985008687907853269984665640564039457584007913129639936 * (b4) + 2135987035920910082395021706169552114602704522356652769947041607822219725780640550022962086936576 * (b5) + 39402006196394479212279040100143613805079739270465446667948293404245721771497210611414266254884915640806627990306816 * (b6) + 726838724295606890549323807888004534353641360687318060281490199180639288113397923326191050713763565560762521606266177933534601628614656 * (b7)) := by
-  have h := SqiProofs.FiatMul5.mul_correct a0 a1 a2 a3 a4 a5 a6 a7 b0 b1 b2 b3 b4 b5 b6 b7 ha0 ha1 ha2 ha3 ha4 ha5 ha6 ha7 hb0 hb1 hb2 hb3 hb4 hb5 hb6 hb7
-  have hp : lvl5.p = 88381546413195830490356121814345177109849335243162749316048866938595612502926212981848292492799412243073940471444121917248865926738905612439870244913151 := by decide +kernel
-  unfold Ref.fp_mul; rw [hp]; exact h
+/-- `Ref.ops` with the primitives replaced by the interpreter on the programs extracted from the C text -/
+def genOps (P : RefParams) (n : Nat) (add sub mul square set_one : SqiModel.Fiat.Prog) : FpOps Nat :=
+  { Ref.ops P with
+    one := SqiModel.Fiat.runLimbs set_one n []
+    add := fun a b => SqiModel.Fiat.runLimbs add n [a, b]
+    sub := fun a b => SqiModel.Fiat.runLimbs sub n [a, b]
+    mul := fun a b => SqiModel.Fiat.runLimbs mul n [a, b]
+    sqr := fun a => SqiModel.Fiat.runLimbs square n [a] }
 
-/-- `fiat_*_square` at level 5 = `Ref.fp_sqr lvl5`, ALL inputs -/
-theorem fiat_square_lvl5 (a0 a1 a2 a3 a4 a5 a6 a7 : Nat) (ha0 : a0 < 18446744073709551616) (ha1 : a1 < 18446744073709551616) (ha2 : a2 < 18446744073709551616) (ha3 : a3 < 18446744073709551616) (ha4 : a4 < 18446744073709551616) (ha5 : a5 < 18446744073709551616) (ha6 : a6 < 18446744073709551616) (ha7 : a7 < 18446744073709551616) :
-    SqiModel.Fiat.evalBase SqiModel.Fiat.W (SqiModel.Fiat.run SqiGen.Fiat5.square [[a0, a1, a2, a3, a4, a5, a6, a7]]) =
-      Ref.fp_sqr lvl5 (a0 + 18446744073709551616 * (a1) + 340282366920938463463374607431768211456 * (a2) + 6277101735386680763835789423207666416102355444464034512896 * (a3) + 115792089237316195423570985008687907853269984665640564039457584007913129639936 * (a4) + 2135987035920910082395021706169552114602704522356652769947041607822219725780640550022962086936576 * (a5) + 39402006196394479212279040100143613805079739270465446667948293404245721771497210611414266254884915640806627990306816 * (a6) + 726838724295606890549323807888004534353641360687318060281490199180639288113397923326191050713763565560762521606266177933534601628614656 * (a7)) := by
-  have h := SqiProofs.FiatSqr5.square_correct a0 a1 a2 a3 a4 a5 a6 a7 ha0 ha1 ha2 ha3 ha4 ha5 ha6 ha7
-  have hp : lvl5.p = 88381546413195830490356121814345177109849335243162749316048866938595612502926212981848292492799412243073940471444121917248865926738905612439870244913151 := by decide +kernel
-  unfold Ref.fp_sqr; rw [hp]; exact h
+def genOps1 : FpOps Nat := genOps lvl1 4 SqiGen.Fiat1.add SqiGen.Fiat1.sub SqiGen.Fiat1.mul SqiGen.Fiat1.square SqiGen.Fiat1.set_one
+def genOps3 : FpOps Nat := genOps lvl3 6 SqiGen.Fiat3.add SqiGen.Fiat3.sub SqiGen.Fiat3.mul SqiGen.Fiat3.square SqiGen.Fiat3.set_one
+def genOps5 : FpOps Nat := genOps lvl5 8 SqiGen.Fiat5.add SqiGen.Fiat5.sub SqiGen.Fiat5.mul SqiGen.Fiat5.square SqiGen.Fiat5.set_one
 
-theorem fiat_set_one :
-    SqiModel.Fiat.runLimbs SqiGen.Fiat1.set_one 4 [] = Ref.fp_set_one lvl1 ∧
-    SqiModel.Fiat.runLimbs SqiGen.Fiat3.set_one 6 [] = Ref.fp_set_one lvl3 ∧
-    SqiModel.Fiat.runLimbs SqiGen.Fiat5.set_one 8 [] = Ref.fp_set_one lvl5 :=
-  ⟨SqiProofs.FiatCheap.set_one_correct_1, SqiProofs.FiatCheap.set_one_correct_3, SqiProofs.FiatCheap.set_one_correct_5⟩
+theorem genOps_refines {P : RefParams} (hL : IsLevel P) {n : Nat} {add sub mul square set_one : SqiModel.Fiat.Prog}
+    (h1 : SqiModel.Fiat.runLimbs set_one n [] = Ref.fp_set_one P)
+    (hadd : ∀ a b, a < P.R → b < P.R → SqiModel.Fiat.runLimbs add n [a, b] = Ref.fp_add P a b)
+    (hsub : ∀ a b, a < P.R → b < P.R → SqiModel.Fiat.runLimbs sub n [a, b] = Ref.fp_sub P a b)
+    (hmul : ∀ a b, a < P.R → b < P.R → SqiModel.Fiat.runLimbs mul n [a, b] = Ref.fp_mul P a b)
+    (hsqr : ∀ a, a < P.R → SqiModel.Fiat.runLimbs square n [a] = Ref.fp_sqr P a) :
+    have := hL.prime
+    FpRefines (genOps P n add sub mul square set_one) P.p (fun a => a < P.p) (toZ P) := by
+  have := hL.prime
+  have hR := hL.valid.hpR
+  have r := ref_refines hL.valid
+  exact
+    { p4 := r.p4, zero := r.zero
+      one := by
+        have e : (genOps P n add sub mul square set_one).one = Ref.fp_set_one P := h1
+        rw [e]; exact r.one
+      add := fun {a b} ha hb => by
+        have e : (genOps P n add sub mul square set_one).add a b = Ref.fp_add P a b := hadd a b (by omega) (by omega)
+        rw [e]; exact r.add ha hb
+      sub := fun {a b} ha hb => by
+        have e : (genOps P n add sub mul square set_one).sub a b = Ref.fp_sub P a b := hsub a b (by omega) (by omega)
+        rw [e]; exact r.sub ha hb
+      mul := fun {a b} ha hb => by
+        have e : (genOps P n add sub mul square set_one).mul a b = Ref.fp_mul P a b := hmul a b (by omega) (by omega)
+        rw [e]; exact r.mul ha hb
+      sqr := fun {a} ha => by
+        have e : (genOps P n add sub mul square set_one).sqr a = Ref.fp_sqr P a := hsqr a (by omega)
+        rw [e]; exact r.sqr ha
+      neg := r.neg, half := r.half, inv := r.inv, sqrt := r.sqrt, isSquare := r.isSquare, isZero := r.isZero
+      isEqual := r.isEqual, select := r.select, cswap := r.cswap, setSmall := r.setSmall, encode := r.encode }
 
-theorem fiat_selectznz_lvl1 (c a0 a1 a2 a3 b0 b1 b2 b3 : Nat) (ha0 : a0 < 2^64) (ha1 : a1 < 2^64) (ha2 : a2 < 2^64) (ha3 : a3 < 2^64)
-    (hb0 : b0 < 2^64) (hb1 : b1 < 2^64) (hb2 : b2 < 2^64) (hb3 : b3 < 2^64) :
-    SqiModel.Fiat.run SqiGen.Fiat1.selectznz [[c], [a0,a1,a2,a3], [b0,b1,b2,b3]] =
-      if c % 2 ^ 64 = 0 then [a0,a1,a2,a3] else [b0,b1,b2,b3] :=
-  SqiProofs.FiatCheap.selectznz_correct_1 c a0 a1 a2 a3 b0 b1 b2 b3 ha0 ha1 ha2 ha3 hb0 hb1 hb2 hb3
+/-- **C07, ref back-end over the generated programs**: with `fp_add/sub/mul/sqr/mont_setone` the programs extracted from the
+    three fp_p*.c files, the operation record refines `ZMod p` (and so every generic GF(p²) theorem of this file applies to it) -/
+theorem ref_backend_refines_generated :
+    FpRefines genOps1 lvl1.p (fun a => a < lvl1.p) (toZ lvl1) ∧
+    FpRefines genOps3 lvl3.p (fun a => a < lvl3.p) (toZ lvl3) ∧
+    FpRefines genOps5 lvl5.p (fun a => a < lvl5.p) (toZ lvl5) :=
+  ⟨genOps_refines .l1 SqiProofs.FiatLayer1.set_one_val SqiProofs.FiatLayer1.add_val SqiProofs.FiatLayer1.sub_val
+      SqiProofs.FiatLayer1.mul_val SqiProofs.FiatLayer1.square_val,
+   genOps_refines .l3 SqiProofs.FiatLayer3.set_one_val SqiProofs.FiatLayer3.add_val SqiProofs.FiatLayer3.sub_val
+      SqiProofs.FiatLayer3.mul_val SqiProofs.FiatLayer3.square_val,
+   genOps_refines .l5 SqiProofs.FiatLayer5.set_one_val SqiProofs.FiatLayer5.add_val SqiProofs.FiatLayer5.sub_val
+      SqiProofs.FiatLayer5.mul_val SqiProofs.FiatLayer5.square_val⟩
 
 /-! ## x86 ("broadwell") back-end, value-level model `SqiModel.GfX86`
 
@@ -453,22 +581,32 @@ theorem gf_sqrt_spec (a : Nat) (ha : a < 2 ^ P.B) :
 theorem gf_sqrt_root [Fact P.q.Prime] (a : Nat) (ha : a < 2 ^ P.B) (hsq : IsSquare (xval P a)) :
     xval P (X86.sqrt P a).1 * xval P (X86.sqrt P a).1 = xval P a := sqrt_root P hP ha hsq
 
+omit hP in
+/-- Pornin binary GCD, inner loop: the packed 31-step inner loop on the 64-bit approximations (`innerLoop 31`, coefficients packed
+    as `f + g·2^32` in one word, `unpack`) yields update coefficients with `|f|, |g| ≤ 2^31` whose combinations with the FULL-WIDTH
+    `a, b` are divisible by `2^31` — for every state with `b` odd (`SqiProofs.GfX86Coeffs`: invariant "packed ≡ f + g·2^32,
+    −2^i < f, g ≤ 2^i, xa₀·f0 + xb₀·g0 = 2^i·xa, xa₀·f1 + xb₀·g1 = 2^i·xb, xb odd" over the 31 steps, and
+    `approx ≡ (a, b) mod 2^31`).  This was a cited hypothesis until round 6. -/
+theorem gf_div_inner_coeffs (st : DivSt) (hb : st.b % 2 = 1) :
+    SqiProofs.GfX86.CoeffsOK st (SqiProofs.GfX86.outerCoeffs P st) :=
+  SqiProofs.GfX86.coeffsOK_of_odd P st hb
+
 /-- Pornin binary GCD (inversion / division): one outer iteration of the model's `divOuterStep` preserves
-    the invariant `a·x·2^k ≡ y·u ∧ b·x·2^k ≡ y·v (mod q)` (with k ↦ k+31) for any update coefficients
-    that satisfy `CoeffsOK` (bounded by 2^31, combinations divisible by 2^31).  PARTIAL: that the inner
-    loop produces such coefficients and that gcd is reached within the fixed iteration counts is cited
-    (Pornin, eprint 2020/972), so there is no end-to-end theorem for `invert` / `legendre`; both are tied
-    to the C code by execution on every run. -/
+    the invariant `a·x·2^k ≡ y·u ∧ b·x·2^k ≡ y·v (mod q)` (with k ↦ k+31), for every state with `b` odd and `a, b, u, v` in range
+    (no hypothesis on the inner loop any more).  PARTIAL: that `a, b` stay below `2^(64n−1)`, that `b` stays odd, and that the gcd is
+    reached within the fixed iteration counts is cited (Pornin, eprint 2020/972) — hypothesis `PorninConvergence` of
+    `x86_backend_refines` — so there is no end-to-end theorem for `invert` / `legendre`; both are tied to the C code by execution
+    on every run, the iteration budget by translation (`gcd_budget`). -/
 theorem gf_div_outer_invariant_partial (st : DivSt) (k : Nat) (x y : Int)
     (ha : st.a < 2 ^ (64 * P.n - 1)) (hb : st.b < 2 ^ (64 * P.n - 1))
     (hu : st.u < 2 ^ P.B) (hv : st.v < 2 ^ P.B)
-    (hc : SqiProofs.GfX86.CoeffsOK st (SqiProofs.GfX86.outerCoeffs P st))
+    (hodd : st.b % 2 = 1)
     (h1 : (P.q : Int) ∣ (st.a : Int) * x * 2 ^ k - y * st.u)
     (h2 : (P.q : Int) ∣ (st.b : Int) * x * 2 ^ k - y * st.v) :
     (divOuterStep P st).u < 2 ^ P.B ∧ (divOuterStep P st).v < 2 ^ P.B ∧
     (P.q : Int) ∣ ((divOuterStep P st).a : Int) * x * 2 ^ (k + 31) - y * (divOuterStep P st).u ∧
     (P.q : Int) ∣ ((divOuterStep P st).b : Int) * x * 2 ^ (k + 31) - y * (divOuterStep P st).v :=
-  SqiProofs.GfX86.divOuterStep_invariant P hP st k x y ha hb hu hv hc h1 h2
+  SqiProofs.GfX86.divOuterStep_invariant P hP st k x y ha hb hu hv (SqiProofs.GfX86.coeffsOK_of_odd P st hodd) h1 h2
 
 /-- the x86 model satisfies the GF(p²)/C06 interface `FpRefines`; arithmetic fields proved, the fields
     resting on the binary GCD (`inv`, `isSquare`) are the explicit hypothesis `X86Cited` -/
